@@ -62,6 +62,15 @@ def driver_shape(ctx, d, name):
     else:
         ctx.holds('R1.order', lw, 'kernel, then chkpt.add(result, generator), then one callback call, '
                   'all unconditional')
+    # the kernel is asked for the requested number of calls
+    kcalls = ke['args'][1]
+    Nk = sel(calls_list, lp['idx'])
+    if 'mpi' not in name:
+        if kcalls == Nk:
+            ctx.holds('R1.requested_calls', lw, 'iteration k runs with iteration_calls[k] calls')
+        else:
+            ctx.violation('R1.requested_calls', lw, 'iteration k does not run with the requested number of '
+                          'calls iteration_calls[k]', {'calls': T.pretty(kcalls)[:200]})
     # the callback sees the checkpoint that was just extended
     cb_arg = ce['args'][-1]
     added = ('hmut', 'hep::chkpt_with_rng::add', ae['obj'])
@@ -129,6 +138,13 @@ def check(ctx):
             else:
                 ctx.holds('R4.mode_independent', where, 'the returned decision does not depend on '
                           'mode_ / filename_')
+            thr = [e for e, l in flat_effects(s.effects) if e['kind'] == 'throw']
+            if thr:
+                ctx.violation('R1.no_other_exit', where, 'the built-in callback can leave by an exception at %s: '
+                              'the run ends without the callback having returned false' % thr[0]['where'],
+                              {'condition': T.pretty(T.conj(thr[0]['pc']))[:200]})
+            else:
+                ctx.holds('R1.no_other_exit', where, 'the built-in callback has no throwing path of its own')
             # the combined result
             acc = [e for e, l in flat_effects(s.effects) if e['kind'] == 'hcall'
                    and e['name'] == 'hep::accumulate']
